@@ -1,0 +1,65 @@
+//go:build verif
+
+package unused
+
+import (
+	"go/ast"
+	"go/token"
+	"go/types"
+
+	"honnef.co/go/tools/analysis/facts/generated"
+	"honnef.co/go/tools/analysis/lint"
+)
+
+// This file is only compiled with the "verif" build tag. It exposes the unexported fields of the use/own graph to an
+// external verification harness. It adds no behaviour: every function either copies fields or calls the unexported
+// function that the analyzer itself calls.
+
+// VerifNode is a copy of Node with exported fields.
+type VerifNode struct {
+	ID   uint64
+	Obj  Object
+	Uses []uint64
+	Owns []uint64
+}
+
+// VerifNodes copies the nodes of a graph as returned by Graph.
+func VerifNodes(nodes []Node) []VerifNode {
+	out := make([]VerifNode, len(nodes))
+	for i, n := range nodes {
+		vn := VerifNode{ID: uint64(n.id), Obj: n.obj}
+		for _, u := range n.uses {
+			vn.Uses = append(vn.Uses, uint64(u))
+		}
+		for _, o := range n.owns {
+			vn.Owns = append(vn.Owns, uint64(o))
+		}
+		out[i] = vn
+	}
+	return out
+}
+
+// VerifResults runs the analyzer's own colouring (SerializedGraph.Results) on the given nodes, exactly as run does.
+func VerifResults(nodes []Node) Result {
+	sg := &SerializedGraph{nodes: nodes}
+	return sg.Results()
+}
+
+// VerifGraph builds the graph exactly as Graph and run do, and additionally returns the mapping from go/types objects
+// to node IDs that was used during construction.
+func VerifGraph(fset *token.FileSet,
+	files []*ast.File,
+	pkg *types.Package,
+	info *types.Info,
+	directives []lint.Directive,
+	generated map[string]generated.Generator,
+	opts Options,
+) ([]Node, map[types.Object]uint64) {
+	g := newGraph(fset, files, pkg, info, directives, generated, opts)
+	g.entry()
+	objs := make(map[types.Object]uint64, len(g.objects))
+	for obj, id := range g.objects {
+		objs[obj] = uint64(id)
+	}
+	return g.nodes, objs
+}
